@@ -67,7 +67,9 @@ func (f *flatten) Iterate(ctx context.Context, onFields OnFields, onRow OnFlatRo
 			anyNonConstantValueFound := false
 			for i, field := range fields {
 				val, found := vals[i].ValueAtTime(ts, field.Expr, resolution)
-				if found && !field.Expr.IsConstant() {
+				if found && !field.Expr.IsConstant() && field.Name != HavingFieldName {
+					// Note - the synthetic _having field doesn't count, since conditions
+					// like "x < 5" are true (and hence found) for periods without any data
 					anyNonConstantValueFound = true
 				}
 				row.Values[i] = val
